@@ -109,6 +109,19 @@ class C06(core.Prop):
                 'out': None, 'stale': False}
 
     def gen_case(self, rng, i):
+        if rng.random() < 0.08:
+            # values with line breaks under expressions whose dot has to cross them (some values violate)
+            vals = [rng.choice(['a\nb', 'line\nbreak', 'abc\n', 'xk', 'two\nlines k', 'k', '\n', 'ab', 'A\nB', None]) for _ in range(rng.randint(2, 7))]
+            fam = rng.choice(['object-str', 'object-str', 'string', 'category'])
+            fr = {'nrows': len(vals), 'cols': [{'name': 'txt', 'fam': fam, 'cells': vals}]}
+            cons = {'txt': [{'kind': 'rex', 'value': [rng.choice([r'^.*$', r'^.+$', r'^[a-z]+.[a-z]+$', r'^.*k$', r'^[a-z]+$', r'^.$'])
+                                                       for _ in range(rng.randint(1, 2))]}]}
+            if rng.random() < 0.4:
+                cons['txt'].insert(0, {'kind': 'type', 'value': 'string'})
+            opts = {'per_constraint': rng.random() < 0.6, 'write_all': rng.random() < 0.4, 'output_fields': None,
+                    'index': False, 'in_place': False, 'boolean_ints': False}
+            return {'frame': fr, 'constraints': cons, 'eps': [0, 1], 'opts': opts, 'out': rng.choice([None, 'csv']), 'stale': False,
+                    'index_kind': 'default'}
         if rng.random() < 0.2:
             return self.gen_band_case(rng)
         fr = cx.gen_frame(rng, fams=c02.MODEL_FAMS)
